@@ -346,8 +346,14 @@ func (txn *Txn) checkSize(e *Entry) error {
 }
 
 func exceedsSize(prefix string, max int64, key []byte) error {
+	// Dump at most the first 1KB. The slice can be shorter than that (for example a value just
+	// above a small ValueThreshold in InMemory mode), so do not slice beyond its length.
+	dump := key
+	if len(dump) > 1<<10 {
+		dump = dump[:1<<10]
+	}
 	return fmt.Errorf("%s with size %d exceeded %d limit. %s:\n%s",
-		prefix, len(key), max, prefix, hex.Dump(key[:1<<10]))
+		prefix, len(key), max, prefix, hex.Dump(dump))
 }
 
 func (txn *Txn) modify(e *Entry) error {
